@@ -4,7 +4,7 @@
     which func was called, in call order.  [find_root_h] additionally tags how a number was reached.
     [ROps] is the real-number instance; f is an ARBITRARY function R -> R unless continuity is stated. *)
 From Coq Require Import Reals ZArith List Bool.
-From LP Require Import Num NumR OrdLaws C02_Model C02_Proofs C02_Proofs2 C02_Proofs3.
+From LP Require Import Num NumR OrdLaws C02_Model C02_Proofs C02_Proofs2 C02_Proofs3 C02_Proofs4.
 Import ListNotations.
 Local Open Scope R_scope.
 
@@ -219,3 +219,38 @@ Theorem C02_x_scale_covariant (f : R -> R) (c a b acc : R) : 0 < c ->
   (xout c (fst (find_root_h ROps f a b acc)), map (Rmult c) (snd (find_root_h ROps f a b acc))).
 Proof. exact (x_scale_covariant f c a b acc). Qed.
 Print Assumptions C02_x_scale_covariant.
+
+(** "linear functions are solved exactly", at EVERY accuracy and on EVERY instance of the number interface (IEEE doubles
+    included; no law of arithmetic is used): a request whose end values are no NaNs and have opposite signs is never
+    answered from the bracket ends alone, however large the accuracy (the width of the bracket and beyond included, where
+    every point of the bracket would satisfy the accuracy clause).  The first pass always runs: the evaluation trace begins
+    xl, xr, the midpoint [mid_any] = 0.5 xl + 0.5 xr and Ridder's point [ridder_any] of the original bracket (after the
+    NaN fallback and the clamp), and when nothing else is evaluated the answer IS that Ridder point (or the process is
+    terminated) - never the midpoint or an end as such.  Over the reals Ridder's point of a linear function is its root
+    (C02_linear_exact). *)
+Theorem C02_first_pass_always_runs {T : Type} (Ops : NumOps T) (f : T -> T) (a b acc : T) :
+  let xl := if ngtb Ops a b then b else a in
+  let xr := if ngtb Ops a b then a else b in
+  nisnan Ops (f xl) = false -> nisnan Ops (f xr) = false ->
+  (sign1 Ops (f xl) * sign1 Ops (f xr) <? 0)%Z = true ->
+  let x3 := mid_any Ops xl xr in
+  let x4 := ridder_any Ops f xl xr (f xl) (f xr) in
+  exists o tr', find_root_h Ops f a b acc = (o, xl :: xr :: x3 :: x4 :: tr') /\
+                (tr' = [] -> o = Exit \/ exists h, o = Ok (x4, h) /\ (h = HF4Zero \/ h = HBracket)).
+Proof. exact (first_pass_always_runs Ops f a b acc). Qed.
+Print Assumptions C02_first_pass_always_runs.
+
+(** One pass of the loop on every instance: exactly two evaluations, at [mid_any] and [ridder_any] of the current
+    bracket; a number returned by the pass is that Ridder point, and so is the variable [result] of a pass that goes on. *)
+Theorem C02_pass_shape_any_instance {T : Type} (Ops : NumOps T) (f : T -> T) (acc : T) (s : st) :
+  let x3 := mid_any Ops (sx1 s) (sx2 s) in
+  let x4 := ridder_any Ops f (sx1 s) (sx2 s) (sf1 s) (sf2 s) in
+  snd (step Ops f acc s) = [x3; x4] /\
+  match fst (step Ops f acc s) with
+  | inl (Ok (x, h)) => x = x4 /\ (h = HF4Zero \/ h = HBracket)
+  | inl Exit => True
+  | inl _ => False
+  | inr s' => sres s' = x4
+  end.
+Proof. exact (step_shape Ops f acc s). Qed.
+Print Assumptions C02_pass_shape_any_instance.
